@@ -241,6 +241,24 @@ def run_case(ctx, i, rng):
                 if e:
                     ctx.violation("element-root:pin", "%s | %s" % (e, st))
                     return
+        # a port / pin as the root of get_hcables, get_hwires: the cables (wires) it is joined to inside its definition, once per
+        # occurrence of that definition
+        d_occ = [sq for sq in occ["instances"] if sq[-1].reference is d]
+        if top.reference is d:
+            d_occ.append((top,))
+        for p in pick(d.ports, 2):
+            wc, ww = collections.Counter(), collections.Counter()
+            for sq in d_occ:
+                for ip_ in p.pins:
+                    if ip_.wire is not None:
+                        wc[ids(sq + (ip_.wire.cable,))] = 1
+                        ww[ids(sq + (ip_.wire.cable, ip_.wire))] = 1
+            ctx.count("element_root_queries", 2)
+            ctx.count("port_root_cable_queries", 2)
+            e = cmp(ctx, "get_hcables(port)", list(_q(rng, ctx, sdn.get_hcables, p)), wc) or cmp(ctx, "get_hwires(port)", list(_q(rng, ctx, sdn.get_hwires, p)), ww)
+            if e:
+                ctx.violation("element-root:port-cables", "%s | %s" % (e, st))
+                return
         for c in pick(d.cables, 2):
             ctx.count("element_root_queries")
             e = cmp(ctx, "get_hcables(cable)", list(_q(rng, ctx, sdn.get_hcables, c)), by_last.get(("cables", id(c)), collections.Counter()))
